@@ -420,6 +420,8 @@ func (s *session) fetchAndWriteResults(statements string, parameters []*schema.N
 		return err
 	}
 
+	affectedRows := 0
+
 	for _, stmt := range stmts {
 		switch st := stmt.(type) {
 		case *sql.UseDatabaseStmt:
@@ -432,10 +434,20 @@ func (s *session) fetchAndWriteResults(statements string, parameters []*schema.N
 				return err
 			}
 		default:
-			if err = s.exec(st, parameters, resultColumnFormatCodes, extQueryMode); err != nil {
+			n, err := s.execCountingRows(st, parameters)
+			if err != nil {
 				return err
 			}
+			affectedRows += n
 		}
+	}
+
+	// INSERT, UPDATE and DELETE report the number of rows they affected
+	switch tag {
+	case "INSERT 0 0":
+		tag = fmt.Sprintf("INSERT 0 %d", affectedRows)
+	case "UPDATE 0", "DELETE 0":
+		tag = fmt.Sprintf("%s %d", strings.TrimSuffix(tag, " 0"), affectedRows)
 	}
 
 	_, err = s.writeMessage(bm.CommandComplete([]byte(tag)))
@@ -1180,6 +1192,12 @@ func (s *session) query(st sql.DataSource, parameters []*schema.NamedParam, resu
 }
 
 func (s *session) exec(st sql.SQLStmt, namedParams []*schema.NamedParam, resultColumnFormatCodes []int16, skipRowDesc bool) error {
+	_, err := s.execCountingRows(st, namedParams)
+	return err
+}
+
+// execCountingRows runs one statement and returns the number of rows it affected
+func (s *session) execCountingRows(st sql.SQLStmt, namedParams []*schema.NamedParam) (int, error) {
 	params := make(map[string]interface{}, len(namedParams))
 
 	for _, p := range namedParams {
@@ -1188,13 +1206,34 @@ func (s *session) exec(st sql.SQLStmt, namedParams []*schema.NamedParam, resultC
 
 	tx, err := s.sqlTx()
 	if err != nil {
-		return err
+		return 0, err
 	}
 
-	ntx, _, err := s.db.SQLExecPrepared(s.ctx, tx, []sql.SQLStmt{st}, params)
-	s.tx = ntx
+	// rows affected so far by the ongoing transaction the statement runs in
+	rowsBefore := 0
+	if tx != nil {
+		rowsBefore = tx.UpdatedRows()
+	}
 
-	return err
+	ntx, ctxs, err := s.db.SQLExecPrepared(s.ctx, tx, []sql.SQLStmt{st}, params)
+	s.tx = ntx
+	if err != nil {
+		return 0, err
+	}
+
+	affectedRows := 0
+	if ntx != nil && ntx == tx {
+		affectedRows = ntx.UpdatedRows() - rowsBefore
+	}
+	for _, ctx := range ctxs {
+		if ctx == tx {
+			affectedRows += ctx.UpdatedRows() - rowsBefore
+		} else {
+			affectedRows += ctx.UpdatedRows()
+		}
+	}
+
+	return affectedRows, nil
 }
 
 type portal struct {
